@@ -132,8 +132,15 @@ def dump (w : World) : String :=
     let wa := sortStr (x.watchers.map toString)
     s!"{a}:{statusName x.status},ch={spaced ch},w={spaced wa},acc={x.accidents},reg={if x.registered then 1 else 0},q={x.sysQ.length}/{x.userQ.length}")
 
-def settle (w : World) : Nat → World
+/-- restart timers still armed when the step budget of `settle` is used up are released (they fire
+in real time on the implementation side: leaving them armed would make every later observation a
+race).  A `fire` only enqueues the restart request, it arms nothing, so this is `timers.length` steps. -/
+def drainTimers (w : World) : Nat → World
   | 0 => w
+  | n + 1 => if w.crashed || w.timers == [] then w else drainTimers (step w .fire) n
+
+def settle (w : World) : Nat → World
+  | 0 => drainTimers w w.timers.length
   | fuel + 1 =>
     if w.crashed then w else
     if w.timers ≠ [] then settle (step w .fire) fuel
